@@ -15,8 +15,10 @@ A session is a world of two endpoints `a`, `b` sharing one clock.  Request lines
     <ep> feed <hex> <pNone> <pFalse> <pTrue> [r=<tok>,…]
     <ep> dl <i> <hex> <pNone> <pFalse> <pTrue> [r=<tok>,…]     (same, datagram i of the peer's history)
 
-`<pX>` is the canonical text of `Packet::read(bytes, hint X)` (`err` for a read error, `=` for
-"same as the previous one"); the driver never looks at the bytes.  Output of an endpoint op:
+`feedp` is `feed` for the one outside datagram a "pure" session may contain (the token-less
+connect request).  `<pX>` is the canonical text of `Packet::read(bytes, hint X)` (`err` for a read error, `=` for
+"same as the previous one"); the driver never looks at the bytes.  A close reason is printed the
+way the reader returns it (at most `CTRLMSG_CLOSE_REASON_LENGTH` = 127 bytes).  Output of an endpoint op:
 `<result> s=<sent packets> e=<events> w=<warnings> nt=<needs_tick>`.
 -/
 namespace Tw.Drv.Conn6
@@ -96,7 +98,7 @@ def ctlStr : Control → String
   | .connect => "co"
   | .connectAccept => "ca"
   | .accept => "ac"
-  | .close r => s!"cx.{toHex r}"
+  | .close r => s!"cx.{toHex (r.take 127)}"
 
 def packetStr : Packet → String
   | .connless d => s!"cl:{toHex d}"
@@ -199,6 +201,10 @@ def epStep (now : Nat) (ep : Ep) (args : List String) : Ep × String :=
       | some d => fin ep (disconnect env ep.conn d)
       | none => (ep, "bad-op")
     | "feed" :: _ :: pn :: pf :: pt :: _ =>
+      match parseReads pn pf pt with
+      | some rd => fin ep (feed env ep.conn rd)
+      | none => (ep, "bad-op")
+    | "feedp" :: _ :: pn :: pf :: pt :: _ =>
       match parseReads pn pf pt with
       | some rd => fin ep (feed env ep.conn rd)
       | none => (ep, "bad-op")
